@@ -16,7 +16,7 @@ RULES = [(r"strict_numeric|value/u?int\d|value/uint\.go|float", "C07"), (r"hash_
 MANUAL = {  # integrator's own commits
     "LogicalExpressionNode.splice": "C03", "growValueStack computed negated": "C10", "optimised call sites recorded": "C15",
     "checkMethod reset": "C12", "explicit `return value`": "C14", "return/break/continue out of a `do`": "C13",
-    "a `yield` used as the last statement": "C15", "CreateCompiler wrote the shared": "C11", "narrowing after a branch that never completes": "C02", "Int64#<<< and Int64#>>> called as methods": "C08", "an error unwound scopes": "C13", "`continue` did not close": "C13",
+    "a `yield` used as the last statement": "C15", "CreateCompiler wrote the shared": "C11", "narrowing after a branch that never completes": "C02", "Int64#<<< and Int64#>>> called as methods": "C08", "outside of a quote made the checker panic": "C03", "an error unwound scopes": "C13", "`continue` did not close": "C13",
 }
 subj2agent = {}
 for a in AG:
